@@ -199,9 +199,41 @@ def related(rng, x):
     return finite(rng, e=q + rng.randint(-40, 40))
 
 
+def wordscale_pair(rng):
+    """operands whose alignment product cx * 10^gap sits on a 64/128/192-bit word boundary (low words zero or tiny),
+    partner coefficient related to the low words: aims at multi-word compare/add code that mixes up word indices"""
+    for _ in range(20):
+        g = rng.randint(1, 34); w = rng.choice([64, 128, 128, 192])
+        if rng.random() < 0.5:
+            a = max(0, w - g + rng.randint(0, 3))
+            odd = rng.choice([1, 1, 3, 5, 7, 9, rng.randrange(1, 1 << 12) | 1])
+            cx = (odd << a) + rng.choice([0, 0, 0, 1, -1])
+        else:             # cx * 10^g = k * 2^w + L with a tiny L: cx = ceil(k * 2^w / 10^g)
+            kmax = (T34 * 10 ** g) >> w
+            if kmax < 1: continue
+            kq = rng.choice([1, 2, 3, kmax, rng.randint(1, kmax), rng.randint(1, kmax)])
+            cx = -((-kq << w) // 10 ** g) + rng.choice([0, 0, 0, -1])
+        if 0 < cx < T34: break
+    else:
+        cx, g = 1 << 108, 20
+    prod = cx * 10 ** g
+    low = prod % (1 << 128)
+    kk = rng.random()
+    if kk < 0.35: cy = rng.randint(T33, T34 - 1)
+    elif kk < 0.6: cy = min(T34 - 1, max(1, low + rng.choice([-1, 0, 1])))
+    elif kk < 0.75: cy = min(T34 - 1, max(1, (prod >> 64) % (1 << 113)))
+    elif kk < 0.9: cy = coeff(rng)
+    else: cy = cx
+    e = rng.randint(QMIN, QMAX - g)
+    s1 = rng.randint(0, 1); s2 = s1 if rng.random() < 0.8 else 1 - s1
+    return fin(s1, cx, e + g), fin(s2, cy, e)
+
+
 def cmp_pair(rng):
     k = rng.random()
-    if k < 0.15:      # enumerated cell: (q1, q2, gap) near-equal pair
+    if k < 0.10:
+        x, y = wordscale_pair(rng)
+    elif k < 0.22:      # enumerated cell: (q1, q2, gap) near-equal pair
         q1 = rng.randint(1, 34); c1 = coeff(rng, q1); g = rng.randint(0, 34 - q1)
         e = expo(rng)
         if e - g < QMIN: e = QMIN + g
@@ -353,11 +385,29 @@ def int_boundary_value(rng, w, signed):
     return fin(s, v, -k)
 
 
+def int_limit_fewdigits(rng, w, signed):
+    """the type limit (or limit + 1) cut to q significant digits, one unit up/down in the q-th digit, written with a
+    positive exponent: values just inside / outside the range for every digit-count class of the range screening"""
+    lim = rng.choice([1 << (w - 1), (1 << (w - 1)) - 1, 1 << w, (1 << w) - 1] if signed else [1 << w, (1 << w) - 1, 1 << (w - 1)])
+    d = ndig(lim); q = rng.randint(1, d)
+    head = lim // 10 ** (d - q) + rng.choice([-1, 0, 0, 1, 1, 2])
+    z = d - q
+    # optionally pad with zeros (more digits, smaller exponent) or strip
+    pad = rng.randint(0, min(z, 34 - ndig(max(head, 1)))) if rng.random() < 0.4 else 0
+    c = max(head, 0) * 10 ** pad; e = z - pad
+    s = rng.randint(0, 1) if signed else (1 if rng.random() < 0.15 else 0)
+    return fin(s, c, e)
+
+
 def gen_toint(rng, n):
     for _ in range(n):
         t, w, sg = rng.choice(INT_TYPES); kind = rng.choice(INT_KINDS); xf = rng.choice(['', 'x'])
         k = rng.random()
-        if k < 0.45: x = int_boundary_value(rng, w, sg)
+        if k < 0.12: x = int_limit_fewdigits(rng, w, sg)
+        elif k < 0.20:   # integers written with many fractional zeros (scale 1..33): exactness tests per removed-digit count
+            v = rng.choice([rng.randint(1, 10 ** rng.randint(1, 12)), rng.randint(1, 9)]); kz = rng.randint(1, 34 - ndig(v))
+            x = fin(rng.randint(0, 1), v * 10 ** kz, -kz)
+        elif k < 0.45: x = int_boundary_value(rng, w, sg)
         elif k < 0.7: x = frac_value(rng)
         elif k < 0.8:   # integers near the limit written with positive exponents
             v = rng.choice([1 << (w - 1), (1 << w), (1 << (w - 1)) - 1, (1 << w) - 1]) + rng.randint(-2, 2)
@@ -445,8 +495,30 @@ def gen_quantize_samequantum(rng, n):
 
 
 # ------------------------------------------------------------------------------------------------ C10 rem / fmod
+def rem_longtie(rng):
+    """exact ties x = (n + 1/2) * y with a long exponent gap g = ex - ey: y = 2^(g+1) * 5^i, x coefficient odd
+    (then 2x/y = cx * 5^(g-i) is an odd integer); the quotient has about g digits, so the implementation iterates"""
+    while True:
+        g = rng.randint(1, 110); i = rng.randint(0, 3)
+        cy = (1 << (g + 1)) * 5 ** i
+        if cy < T34: break
+    cx = coeff(rng) | 1
+    if rng.random() < 0.3: cx = rng.randint(1, 99) | 1
+    qy = rng.randint(QMIN, QMAX - g)
+    off = rng.choice([0, 0, 0, 1, -1])          # just off the tie as well
+    return fin(rng.randint(0, 1), max(1, cx + off if off and cx + off < T34 else cx), qy + g), fin(rng.randint(0, 1), cy, qy)
+
+
 def gen_rem(rng, n):
     for _ in range(n):
+        k = rng.random()
+        if k < 0.10:
+            x, y = rem_longtie(rng)
+            yield line(rng.choice(['rem', 'rem', 'fmod', 'o_rem']), 0, status_in(rng), x, y); continue
+        if k < 0.20:
+            hi, lo = wordscale_pair(rng)          # hi has the larger exponent
+            x, y = (lo, hi) if rng.random() < 0.7 else (hi, lo)
+            yield line(rng.choice(['rem', 'fmod', 'fmod', 'o_rem']), 0, status_in(rng), x, y); continue
         k = rng.random()
         cy = coeff(rng); qy = expo(rng)
         if k < 0.25:      # exact ties x = (m + 1/2) y, m even or odd: y even -> x = (2m+1) * (y/2)
@@ -597,7 +669,22 @@ def gen_noncanon_ops(rng, n):
 
 
 # ------------------------------------------------------------------------------------------------ C17 next*
+NEXT_SPECIALS = None
+
+
 def gen_next(rng, n):
+    global NEXT_SPECIALS
+    if NEXT_SPECIALS is None:
+        vals = []
+        for s in (0, 1):
+            vals += [fin(s, T34 - 1, QMAX), fin(s, T34 - 2, QMAX), fin(s, 1, QMIN), fin(s, 2, QMIN), fin(s, 0, QMIN), fin(s, 0, 0), fin(s, 0, QMAX),
+                     (s << 127) | (0x78 << 120), fin(s, T33, QMIN), fin(s, T33 - 1, QMIN), fin(s, T33, QMIN + 1), fin(s, 1, 0), fin(s, T33, QMAX)]
+        NEXT_SPECIALS = vals
+    # every special value against every special value (both binary operations), and the unary ones
+    for x in NEXT_SPECIALS:
+        for op in ('nextup', 'nextdown'): yield line(op, 0, status_in(rng), x)
+        for y in NEXT_SPECIALS:
+            for op in ('nextafter', 'nexttoward'): yield line(op, 0, status_in(rng), x, y)
     for _ in range(n):
         k = rng.random()
         if k < 0.5:
